@@ -297,6 +297,9 @@ fn on_foyer_event(kind: &'static str, a: u64, b: u64) {
         "submitted" => {
             hist::ev("submitted", a, b, 0);
         }
+        "delete" => {
+            hist::ev("disk_delete", a, 0, 0);
+        }
         "skip_young" => {
             hist::ev("skip_young", a, 0, 0);
             hist::probe("skip_young");
@@ -513,6 +516,19 @@ pub fn judge(case: &Case, k: u64, bytes: &[u8], via: &str) -> Res {
                         })
                     });
                 shape.push(("handoff_during_or_after_removal", late.to_string()));
+                // did a background task evict exactly this version from memory only AFTER the removal had reached the
+                // disk tier (Store::delete probe)? remove() takes the entry out of memory first and deletes on disk
+                // second, so on the unchanged tree nothing of the key is left in memory to be evicted by then (unless
+                // an abandoned lookup put it back, D23)
+                let evicted_after_delete = hist::with_events(|evs| {
+                    let h = hash_of(hmode, k);
+                    let del = evs.iter().find(|e| e.kind == "disk_delete" && e.a == h && e.seq > km.removed_at).map(|e| e.seq);
+                    match del {
+                        Some(d) => evs.iter().any(|e| e.kind == "mem_leave" && e.a == 0 && e.b == k && e.c == ver as u64 && e.task as u64 != client_task && e.seq > d),
+                        None => false,
+                    }
+                });
+                shape.push(("evicted_from_memory_after_disk_delete", evicted_after_delete.to_string()));
                 // was a lookup of this key, started while the removed version was current and abandoned by its caller
                 // while still pending, in flight when the removal started? (its disk load may complete afterwards
                 // and put the removed value back into memory)
@@ -661,6 +677,9 @@ pub struct Hyb {
 /// Placement class of a key for the whole run (0 default, 1 in-memory only, 2 on-disk).
 pub fn key_class(case: &Case, k: u64) -> u8 {
     let (im, od) = (case.get("inmem_mod") as u64, case.get("ondisk_mod") as u64);
+    if case.get("ondisk_key") as u64 == k + 1 {
+        return 2;
+    }
     if im > 0 && k % im == 1 {
         1
     } else if od > 0 && k % od == 2 {
@@ -679,8 +698,18 @@ fn loc_of(l: u8) -> Location {
 }
 
 impl Hyb {
+    pub fn unhold_flush(&mut self) {
+        if self.ctl.flush_switch.is_on() {
+            hist::ev("flush_unheld", 0, 0, 0);
+            self.ctl.flush_switch.off();
+        }
+    }
+
     pub async fn shutdown(&mut self, graceful: bool) {
         self.held.clear();
+        if graceful {
+            self.unhold_flush();
+        }
         if let Some(c) = self.cache.take() {
             if graceful {
                 hist::ev("close_inv", 0, 0, 0);
@@ -723,6 +752,10 @@ impl Hyb {
     pub async fn exec_op(&mut self, op: &Op) -> Res {
         let case = self.case.clone();
         let Some(cache) = self.cache.clone() else { return Res::unit() };
+        // operations that wait for the flushers must not run into a held flush
+        if matches!(op, Op::Wait | Op::Close | Op::Reopen | Op::Clear) {
+            self.unhold_flush();
+        }
         match op {
             Op::Insert { k, w, loc, hold, .. } => {
                 let ver = fresh_ver();
@@ -955,6 +988,17 @@ impl Hyb {
                             self.ctl.holder.unhold()
                         }
                     }
+                    // hold / release flushing: while held, everything handed to the disk tier stays in its write queue
+                    13 => {
+                        if *arg != 0 {
+                            if !self.ctl.flush_switch.is_on() {
+                                hist::fault("flush_held");
+                            }
+                            self.ctl.flush_switch.on()
+                        } else {
+                            self.unhold_flush()
+                        }
+                    }
                     // crash-restart: the process dies (no close, nothing flushed any more), then the store is reopened on
                     // what the device holds
                     30 => {
@@ -1151,8 +1195,9 @@ async fn caller(cache: HCache, case: Case, g: Geo, client: usize, ops: Vec<Op>) 
                 let (kk, yields, fail) = (*k, *yields, *fail);
                 let ver = fresh_ver();
                 let len = value_len(&g, 1, ver);
+                let kloc = key_class(&case, kk);
                 logged = Op::Fetch { k: kk, ver, w: 1, yields: yields, fail, hold: false };
-                model_register(kk, ver, len, 0, 1);
+                model_register(kk, ver, len, kloc, 1);
                 let fut = cache.get_or_fetch(&kk, move || async move {
                     struct Guard(u64, u32, bool);
                     impl Drop for Guard {
@@ -1170,7 +1215,11 @@ async fn caller(cache: HCache, case: Case, g: Geo, client: usize, ops: Vec<Op>) 
                     shuttle::thread::yield_now();
                     gd.2 = true;
                     hist::ev("origin_done", kk, ver as u64, fail as u64);
-                    if fail { Err(anyhow::anyhow!("origin failed")) } else { Ok(make_value(kk, ver, len, false)) }
+                    if fail {
+                        Err(anyhow::anyhow!("origin failed"))
+                    } else {
+                        Ok((make_value(kk, ver, len, false), HybridCacheProperties::default().with_location(loc_of(kloc))))
+                    }
                 });
                 hist::ev("registered", client as u64, kk, 1);
                 match fut.await {
@@ -1202,9 +1251,10 @@ async fn caller(cache: HCache, case: Case, g: Geo, client: usize, ops: Vec<Op>) 
             Op::Insert { k, loc, .. } => {
                 let ver = fresh_ver();
                 let len = value_len(&g, 1, ver);
-                logged = Op::Insert { k: *k, ver, w: 1, loc: *loc, hold: false };
-                model_register(*k, ver, len, 0, 1);
-                drop(cache.insert(*k, make_value(*k, ver, len, false)));
+                let kloc = key_class(&case, *k);
+                logged = Op::Insert { k: *k, ver, w: 1, loc: kloc, hold: false };
+                model_register(*k, ver, len, kloc, 1);
+                drop(cache.insert_with_properties(*k, make_value(*k, ver, len, false), HybridCacheProperties::default().with_location(loc_of(kloc))));
                 Res::unit()
             }
             Op::Remove { k } => {
@@ -1266,6 +1316,7 @@ async fn concurrent_round(h: &mut Hyb) {
     if case.get("throttle_loads") != 0 {
         cache.storage().load_throttle_switch().unthrottle();
     }
+    h.unhold_flush();
     hist::ev("round_done", 0, 0, 0);
 }
 
